@@ -93,6 +93,10 @@ HARNESSES: Dict[str, dict] = {
     # any other - what it takes off the queues must reach the callback, the rest stays for later subscriptions
     "H16-callback-subscription": {
         "pre": [("c.1", 0), ("c.1", 1)], "pubs": [[("c.1", 0), ("c.2", 0)]], "subs": [], "callbacks": ["c.*"], "drain": ["*"]},
+    # two concurrent subscribers whose patterns are DISJOINT (whatever the matcher shares between subscriptions shows as a message routed
+    # to the wrong one, or left behind)
+    "H17-two-subscribers-disjoint-patterns": {
+        "pre": [("a.1", 0), ("b.1", 0)], "pubs": [[("a.1", 1)]], "subs": ["a.*", "b.?"], "drain": ["*"]},
     "H10-preopened-exact-and-concurrent-subscriber": {
         "pre": [], "pubs": [[("c.1", 0)], [("c.1", 0)]], "subs": ["c.?"], "preopen": ["c.1"], "drain": ["*"]},
 }
@@ -105,7 +109,9 @@ _REAL_GETPID = os.getpid
 def run_harness(name: str, prefix: List[int]) -> sched.Execution:
     in_memory = _install_shim()
     h = HARNESSES[name]
-    s = sched.Scheduler([in_memory.__file__], prefix)
+    # scheduling points at every line of every module of the transport package (the matcher and helpers the transport calls live there too)
+    pkg = os.path.dirname(in_memory.__file__)
+    s = sched.Scheduler(sorted(os.path.join(pkg, f) for f in os.listdir(pkg) if f.endswith(".py")), prefix)
     _CUR[0] = s
     try:
         t = in_memory.InMemorySemantivaTransport()
@@ -280,17 +286,18 @@ def check(tier: str, seed: int) -> Result:
     if tier == "quick":
         plan = [("H1-two-publishers-new-channel", 2), ("H2-publishers-and-subscriber", 1), ("H3-routing-two-channels", 1),
                 ("H4-existing-channel", 1), ("H6-two-subscribers", 1), ("H7-one-message-each-two-new-channels", 1),
-                ("H8-one-publisher-one-subscriber", 2), ("H9-subscription-opened-before-channels-exist", 1), ("H10-preopened-exact-and-concurrent-subscriber", 1), ("H11-message-shapes", 1), ("H12-connect-and-close-around-traffic", 1), ("H13-publish-before-anyone-connects", 1), ("H14-eighteen-channels-polling-consumer", 0), ("H15-used-in-a-forked-child", 1), ("H16-callback-subscription", 1)]
+                ("H8-one-publisher-one-subscriber", 2), ("H9-subscription-opened-before-channels-exist", 1), ("H10-preopened-exact-and-concurrent-subscriber", 1), ("H11-message-shapes", 1), ("H12-connect-and-close-around-traffic", 1), ("H13-publish-before-anyone-connects", 1), ("H14-eighteen-channels-polling-consumer", 0), ("H15-used-in-a-forked-child", 1), ("H16-callback-subscription", 1), ("H17-two-subscribers-disjoint-patterns", 1)]
         cap = 400000
     else:
         plan = [("H1-two-publishers-new-channel", 3), ("H2-publishers-and-subscriber", 3), ("H3-routing-two-channels", 2),
                 ("H4-existing-channel", 3), ("H5-three-publishers", 2), ("H6-two-subscribers", 2),
                 ("H7-one-message-each-two-new-channels", 3), ("H8-one-publisher-one-subscriber", 3),
-                ("H9-subscription-opened-before-channels-exist", 2), ("H10-preopened-exact-and-concurrent-subscriber", 3), ("H11-message-shapes", 2), ("H12-connect-and-close-around-traffic", 2), ("H13-publish-before-anyone-connects", 2), ("H14-eighteen-channels-polling-consumer", 1), ("H15-used-in-a-forked-child", 2), ("H16-callback-subscription", 3)]
+                ("H9-subscription-opened-before-channels-exist", 2), ("H10-preopened-exact-and-concurrent-subscriber", 3), ("H11-message-shapes", 2), ("H12-connect-and-close-around-traffic", 2), ("H13-publish-before-anyone-connects", 2), ("H14-eighteen-channels-polling-consumer", 1), ("H15-used-in-a-forked-child", 2), ("H16-callback-subscription", 3), ("H17-two-subscribers-disjoint-patterns", 3)]
         cap = 3000000
     jobs = []
     per: Dict[str, dict] = {}
     for name, bound in plan:
+        run_harness(name, [])  # warm-up: whatever the library memoises at module level is in its steady state before schedules are recorded
         x0 = run_harness(name, [])
         bad0 = judge(x0)
         per[name] = {"bound": bound, "executions": 1, "points_default_run": len(x0.points), "by_preemptions": {0: 1},
